@@ -7,6 +7,7 @@ from __future__ import annotations
 
 from typing import TYPE_CHECKING, Any
 
+from hypergraph.nodes.base import _EMIT_SENTINEL
 from hypergraph.nodes.gate import IfElseNode, RouteNode
 
 if TYPE_CHECKING:
@@ -46,7 +47,12 @@ def check_cache(
     if not hit:
         return cache_key, None
 
-    return cache_key, dict(cached_value)
+    restored = dict(cached_value)
+    # Emit outputs are identity-compared signals. A serialising backend hands
+    # back a copy of the sentinel, so re-apply the real one on a hit.
+    for name in node.outputs[len(node.data_outputs) :]:
+        restored[name] = _EMIT_SENTINEL
+    return cache_key, restored
 
 
 def _routing_config(node: HyperNode) -> tuple:
